@@ -848,6 +848,38 @@ Lemma legacy_drain_empties : forall q p w, w_queue (drain false q p w) = [].
 Proof. induction q as [|[m c] q' IH]; intros p w; cbn [drain]; [reflexivity|]. destruct p; apply IH. Qed.
 
 (* ========================================================================================== *)
+(* FAST switch reports                                                                           *)
+
+Lemma fget_fstep : forall m n op,
+  fget n (fstep m op) =
+  match fget n m with Some (inv, st) => Some (inv, fupd n inv st op) | None => None end.
+Proof.
+  induction m as [|[k [inv st]] t IH]; intros n op; [reflexivity|].
+  cbn [fstep map fget fst snd]. destruct (n =? k) eqn:E.
+  - apply Z.eqb_eq in E. subst k. reflexivity.
+  - apply IH.
+Qed.
+
+Lemma last_report_wins_fast_l : forall ops m n inv st0,
+  fget n m = Some (inv, st0) ->
+  fget n (fold_left fstep ops m) = Some (inv, last_fast n inv ops st0).
+Proof.
+  induction ops as [|op t IH]; intros m n inv st0 H; [exact H|].
+  cbn [fold_left]. unfold last_fast. cbn [fold_left]. fold (last_fast n inv t).
+  apply IH. rewrite fget_fstep, H. reflexivity.
+Qed.
+
+(* a snapshot decides every configured switch on its own: earlier reports are irrelevant *)
+Lemma snapshot_decides_l : forall pre bits m n inv st0,
+  fget n m = Some (inv, st0) ->
+  fget n (fold_left fstep (pre ++ [FSnap bits]) m) =
+  Some (inv, Z.lxor (if inv then 1 else 0) (nth (Z.to_nat n) bits 0)).
+Proof.
+  intros pre bits m n inv st0 H. rewrite (last_report_wins_fast_l _ _ _ _ _ H).
+  unfold last_fast. rewrite fold_left_app. reflexivity.
+Qed.
+
+(* ========================================================================================== *)
 (* satisfiability examples (hypotheses of the theorems in Props.v hold on non-trivial states)     *)
 
 Example ex_frames_crc_ok : frame_crc_ok ex_frame7 = true /\ frame_crc_ok ex_frame11 = true /\
@@ -891,3 +923,11 @@ Example ex_writer_paused :
   w_paused s = Some [65; 65; 58] /\ map fst (w_written s) = [1] /\ map fst (w_queue s) = [2] /\
   map fst (w_written (wstep true s (Rx [65; 65; 58]))) = [1; 2].
 Proof. vm_compute. repeat split; reflexivity. Qed.
+
+Example ex_fast_switches :
+  let m := [(1, (false, 0)); (3, (true, 0)); (40, (false, 1))] in
+  let s := [1; 1; 0; 1] ++ repeat 0 108 in
+  fget 3 m = Some (true, 0) /\
+  ftrace m [FSnap s; FClosed 3; FOpen 1; FClosed 80; FSnap s] =
+    [[1; 0; 0]; [1; 1; 0]; [0; 1; 0]; [0; 1; 0]; [1; 0; 0]].
+Proof. vm_compute. split; reflexivity. Qed.
